@@ -363,6 +363,17 @@ def _scenario_single(case, res, log):
     ok, why, f2 = T.verify_single(secret, kn, alg, rwire2, request_mac=f["mac"])
     if not ok:
         raise Violation("C14:mac-differs-from-rfc", f"response signed by the library {tag}: {why}")
+    # (3a) a response reporting a TSIG error (BADTIME 18, BADTRUNC 22, ...) is a signed response like any other
+    # (RFC 8945 5.3.2): request MAC, message, variables with the error code
+    terr = (18, 22, 16, 17)[case["flipbit"] % 4]
+    eresp = dns.message.make_response(qparsed, tsig_error=terr)
+    ewire = eresp.to_wire()
+    ok, why, f2e = T.verify_single(secret, kn, alg, ewire, request_mac=f["mac"])
+    if not ok:
+        raise Violation("C14:mac-differs-from-rfc", f"response reporting TSIG error {terr}, signed by the library {tag}: {why}")
+    if f2e["error"] != terr:
+        raise Violation("C14:tsig-fields", f"make_response(tsig_error={terr}) {tag}: the TSIG record carries error {f2e['error']}")
+    res.probes.inc("error_response_mac_bound_to_request")
     # (3b) a signed response that does not fit: with prefer_truncation the library sets TC and drops
     # records; the MAC must be the one of the message as sent
     big = dns.message.make_response(qparsed)
@@ -576,7 +587,11 @@ def _sign_stream(case, secret, kn, alg, req_mac, wires, signed_flags, t0):
             mac = T.mac_single(secret, kn, alg, w, oid, t, case["fudge"], 0, b"", req_mac)
         else:
             mac = T.mac_subsequent(secret, alg, prior, pending, w, oid, t, case["fudge"])
-        out.append(T.append_tsig(w, T.tsig_rr(kn, alg, t, case["fudge"], mac, oid)))
+        signed = T.append_tsig(w, T.tsig_rr(kn, alg, t, case["fudge"], mac, oid))
+        if case.get("orig_id_differs"):
+            # a forwarder rewrote the header id of the signed envelopes: the TSIG original id is what was signed
+            signed = struct.pack("!H", (oid + 0x0101) & 0xFFFF) + signed[2:]
+        out.append(signed)
         prior = mac
         pending = []
     return out
@@ -697,11 +712,16 @@ def _scenario_real_multi(case, res, log):
         _set_clock(float(case["time"] + i))
         m = dns.message.make_response(qparsed)
         m.answer.append(dns.rrset.from_text(qparsed.question[0].name, 60, "IN", "A", f"10.3.{i}.1"))
+        if case.get("orig_id_differs"):
+            # the documented original_id option: sign for another id than the header carries
+            m.use_tsig(key, fudge=case["fudge"], original_id=(m.id + 0x0101) & 0xFFFF, algorithm=key.algorithm)
         w = m.to_wire(multi=True, tsig_ctx=ctx)
         ctx = m.tsig_ctx
         stripped, ff = T.split_tsig(w)
         if ff is None:
             raise Violation("C14:tsig-fields", f"{tag}: envelope {i} carries no TSIG")
+        if case.get("orig_id_differs") and ff["orig_id"] != (m.id + 0x0101) & 0xFFFF:
+            raise Violation("C14:tsig-fields", f"{tag}: envelope {i} carries original id {ff['orig_id']}, use_tsig(original_id=) asked for {(m.id + 0x0101) & 0xFFFF}")
         if i == 0:
             want = T.mac_single(secret, kn, alg, stripped, ff["orig_id"], ff["time"], ff["fudge"], ff["error"], ff["other"], f["mac"])
         else:
@@ -960,9 +980,11 @@ def _scenario_renderer(case, res, log):
     prior = None
     qname = dns.name.from_text(case["qname"])
     tag = f"Renderer.{'add_multi_tsig' if use_multi else 'add_tsig'} alg={alg} envelopes={n} request_mac={'yes' if bound else 'no'}"
+    # (a share of the runs renders under another header id than the TSIG original id, as a forwarder does)
+    hdr_id = (case["qid"] + 0x0101) & 0xFFFF if case.get("orig_id_differs") else case["qid"]
     for i in range(n):
         _set_clock(t0 + i)
-        r = dns.renderer.Renderer(id=case["qid"], flags=0x8400, max_size=65535)
+        r = dns.renderer.Renderer(id=hdr_id, flags=0x8400, max_size=65535)
         r.add_question(qname, dns.rdatatype.A)
         for j in range(case["nrr"]):
             r.add_rrset(dns.renderer.ANSWER, dns.rrset.from_text(qname, 300, "IN", "A", f"10.{i}.{j}.1"))
